@@ -73,6 +73,9 @@ Require Import Ctpg.Proofs.ContainersBits.
 Require Import Ctpg.Proofs.ContainersVec.
 Require Import Ctpg.Proofs.ContainersSort.
 Require Import Ctpg.Proofs.UtilsCorrect.
+Require Import Ctpg.Model.LRGen.
+Require Import Ctpg.Model.LRGenWords.
+Require Import Ctpg.Proofs.LRGenWordsRefine.
 
 (* BELOW THE GENERATOR MIRROR (word-level mirror of namespace stdex, tied to the real templates by kernel-checked observations): for every size N and EVERY sequence of cbitset operations, test(j) answers membership in the set of indices the operations describe - the 64-bit word arithmetic (idx / 64, 1 << idx % 64, masks) is exact across word boundaries *)
 Theorem C01_item_and_lookahead_sets_are_sets_of_indices :
@@ -121,6 +124,24 @@ Theorem C01_rule_sort_is_the_models_stable_sort :
   forall l : list rule_info, l <> [] -> stdex_sort (fun a b : rule_info => ri_l a <? ri_l b) l = Ok (sort_ris l).
 Proof. exact @stdex_sort_is_sort_ris. Qed.
 Print Assumptions C01_rule_sort_is_the_models_stable_sort.
+
+(* LINK (the generator's fixpoints on the real representation): the nullable and FIRST computations of the generator mirror, re-expressed on cbitset words with cb_new / cb_set / cb_test / cb_add and operator== exactly where the C++ uses them (Model/LRGenWords.v), return for EVERY grammar with in-range symbols the sets the abstract mirror computes - including the termination test `before == after` of the FIRST fixpoint, which is set equality because these sets keep clean padding *)
+Theorem C01_nullable_and_first_sets_on_64_bit_words_are_the_models :
+  forall g : grammar, syms_in_range g -> exists (b : cbitset) (t : list cbitset), w_nterm_empty g = Ok b /\ w_nterm_first g b = Ok t /\ cb_abs b = nterm_empty g /\ map cb_abs t = nterm_first g (nterm_empty g).
+Proof. exact @w_first_sets_refine. Qed.
+Print Assumptions C01_nullable_and_first_sets_on_64_bit_words_are_the_models.
+
+(* the FIRST table alone, from any nullable set *)
+Theorem C01_first_sets_on_words_refine :
+  forall g : grammar, syms_in_range g -> forall ne_w : cbitset, cb_wf ne_w -> cb_n ne_w = N.of_nat (nterm_count g) -> exists t : list cbitset, w_nterm_first g ne_w = Ok t /\ map cb_abs t = nterm_first g (cb_abs ne_w) /\ Forall (fun b : cbitset => cb_wf b /\ cb_clean b /\ cb_n b = N.of_nat (term_count g)) t.
+Proof. exact @w_nterm_first_refines. Qed.
+Print Assumptions C01_first_sets_on_words_refine.
+
+(* the range hypothesis is necessary: the list model ignores an out-of-range index, the word level throws 'Index access out of range' (what makes an undeclared symbol a construction failure) *)
+Theorem C01_an_out_of_range_symbol_throws_at_word_level :
+  syms_in_rangeb exbad_g = false /\ (do x <- w_nterm_empty exbad_g;; w_nterm_first exbad_g x) = Throw /\ nterm_first exbad_g (nterm_empty exbad_g) = [[false; false]].
+Proof. exact @out_of_range_throws. Qed.
+Print Assumptions C01_an_out_of_range_symbol_throws_at_word_level.
 
 (* utils::str_equal on C strings = equality of the strings up to their terminators, nothing behind a terminator is read *)
 Theorem C01_symbol_names_are_compared_as_whole_strings :
